@@ -127,15 +127,18 @@ where
 
         // Disable the interrupt
         if self.device.config.wkup_int_config.is_int_en() && has_wkup_config_changes {
-            self.device.interface.write_register(
-                self.device
-                    .config
-                    .wkup_int_config
-                    .wkup_int_config0
-                    .with_x_axis(false)
-                    .with_y_axis(false)
-                    .with_z_axis(false),
-            )?;
+            let disabled_config0 = self
+                .device
+                .config
+                .wkup_int_config
+                .wkup_int_config0
+                .with_x_axis(false)
+                .with_y_axis(false)
+                .with_z_axis(false);
+            self.device.interface.write_register(disabled_config0)?;
+            // The device now holds the disabled value: record it so that the
+            // axes are written back below even if CONFIG0 itself is unchanged
+            self.device.config.wkup_int_config.wkup_int_config0 = disabled_config0;
         }
         // Write the config changes
         if self.device.config.wkup_int_config.wkup_int_config1.bits()
